@@ -79,7 +79,7 @@ def encode_scenario(sc):
 
 class Result:
     __slots__ = ("kind", "code", "hash", "nev", "sim_us", "files", "events", "faults_fired", "short_reads",
-                 "clock_reads", "bytes_written", "bytes_read", "order")
+                 "clock_reads", "bytes_written", "bytes_read", "order", "index")
 
     @property
     def outcome(self):
@@ -196,18 +196,21 @@ class Server:
         o = 64
         files = {}
         order = []
+        index = {}
         for _ in range(nfiles):
             pl = struct.unpack_from("<I", d, o)[0]
             o += 4
             path = d[o:o + pl].decode("latin1")
             o += pl
-            ex, l = struct.unpack_from("<II", d, o)
-            o += 8
+            ex, l, fidx = struct.unpack_from("<III", d, o)
+            o += 12
             files[path] = d[o:o + l] if ex else None
             order.append(path)
+            index[fidx] = path
             o += l
         r.files = files
         r.order = order
+        r.index = index
         r.events = d[o:o + nevret * 24]
         return r
 
